@@ -244,6 +244,57 @@ def run_area(ctx, name, area, exact):
         t = pyproj.Transformer.from_crs(sw.crs, area.crs, always_xy=True)
         xs6, ys6 = t.transform(lons, lats)
         results["ll2cr"] = (np.asarray(xs6), np.asarray(ys6), list(zip(lc.ravel(), lr.ravel())))
+        # 6b the same mapping through the dask EWA resampler (what satpy uses): same columns / rows, also when the (cached) mapping is
+        #    evaluated a second time, and the caller's lon/lat arrays are left alone
+        if True:
+            import xarray as xr
+            from pyresample.ewa import DaskEWAResampler
+            lon_in, lat_in = lon2.copy(), lat2.copy()
+            nch = ctx.rng.choice([n, n, max(1, n // 2)])
+            if ctx.rng.random() < 0.5:
+                sw_d = geometry.SwathDefinition(xr.DataArray(da.from_array(lon_in, chunks=(1, nch)), dims=("y", "x"), attrs={"rows_per_scan": 1}),
+                                                xr.DataArray(da.from_array(lat_in, chunks=(1, nch)), dims=("y", "x")))
+            else:
+                sw_d = geometry.SwathDefinition(da.from_array(lon_in, chunks=(1, nch)), da.from_array(lat_in, chunks=(1, nch)))
+            try:
+                rs_d = DaskEWAResampler(sw_d, area)
+                rs_d.precompute(rows_per_scan=1)
+                for rep_ in (1, 2):
+                    cr = np.asarray(rs_d.cache["ll2cr_result"].compute())
+                    ctx.count("ll2cr.dask_path")
+                    same = cr.shape == (2,) + lc.shape and np.array_equal(cr[0], lc, equal_nan=True) and np.array_equal(cr[1], lr, equal_nan=True)
+                    untouched = np.array_equal(lon_in, lon2, equal_nan=True) and np.array_equal(lat_in, lat2, equal_nan=True)
+                    if not same or not untouched:
+                        nd = int((~((cr[0] == lc) | (np.isnan(cr[0]) & np.isnan(lc)))).sum()) if cr.shape == (2,) + lc.shape else -1
+                        ctx.fail("ewa.DaskEWAResampler.precompute", f"evaluation {rep_} of the dask resampler's swath-to-grid mapping: "
+                                 + (f"{nd} of {n} points get other columns/rows than ewa.ll2cr gives them" if not same else "")
+                                 + ("; the lon/lat arrays given by the caller were overwritten" if not untouched else ""),
+                                 {"area": name, "shape": [H, W], "extent": [float(v) for v in area.area_extent], "n_points": n, "evaluation": rep_},
+                                 tags={"cause": "dask-ll2cr"}, size=n)
+                        break
+            except Exception as e:  # noqa
+                ctx.fail("ewa.DaskEWAResampler.precompute", f"raised {type(e).__name__}: {str(e)[:120]}", {"area": name, "n_points": n}, size=n)
+        # 4b the bucket resampler's statistics place a point where its index arrays say (or nowhere): per-cell max / min of point ids
+        try:
+            ids_ = np.arange(1, n + 1, dtype=np.float64)
+            exp_max = np.full((H, W), np.nan)
+            exp_min = np.full((H, W), np.nan)
+            for k_, (a_, b_) in enumerate(zip(xi, yi)):
+                if a_ >= 0 and b_ >= 0:
+                    exp_max[b_, a_] = ids_[k_] if np.isnan(exp_max[b_, a_]) else max(exp_max[b_, a_], ids_[k_])
+                    exp_min[b_, a_] = ids_[k_] if np.isnan(exp_min[b_, a_]) else min(exp_min[b_, a_], ids_[k_])
+            d_ids = da.from_array(ids_, chunks=max(1, n // 3))
+            for stat, exp_ in (("get_max", exp_max), ("get_min", exp_min)):
+                got_ = np.asarray(getattr(br, stat)(d_ids))
+                ctx.count(f"bucket.{stat}")
+                if got_.shape != exp_.shape or not np.array_equal(got_, exp_, equal_nan=True):
+                    bad_ = np.argwhere(~((got_ == exp_) | (np.isnan(got_) & np.isnan(exp_)))) if got_.shape == exp_.shape else []
+                    c_ = tuple(int(v) for v in bad_[0]) if len(bad_) else None
+                    ctx.fail(f"BucketResampler.{stat}", f"{stat} of the point ids: cell {c_} holds {got_[c_] if c_ else None} but the points the index arrays put there give "
+                             f"{exp_[c_] if c_ else None} ({len(bad_)} cells differ; {int(((xi < 0) | (yi < 0)).sum())} of {n} points are outside the area)",
+                             {"area": name, "shape": [H, W], "extent": [float(v) for v in area.area_extent], "n_points": n, "statistic": stat}, tags={"cause": "bucket-stat-placement"}, size=n)
+        except Exception as e:  # noqa
+            ctx.fail("BucketResampler.get_max", f"raised {type(e).__name__}: {str(e)[:120]}", {"area": name, "n_points": n}, size=n)
         # 7 ImageContainerQuick onto a shifted/scaled target area in the same CRS
         tw, th = min(W + 3, 9), min(H + 3, 9)
         dx, dy = area.pixel_size_x, area.pixel_size_y
